@@ -130,7 +130,8 @@ def gen_step(rng, L, ops=OPS, max_len=20000):
         return op, [old, new, ropt(rng, L), ropt(rng, L), count, rng.choice([None, None, False, True])]
     if op == 'byteswap':
         fmt = rng.choice([None, 0, 1, 2, 3, [1, 2], [2, 1, 1], -1, [1, -1], [0, 0], [], 'h', '>2h', '<hb', 'q', 'xx', '2', rstructfmt(rng)])
-        return op, [fmt, ropt(rng, L), ropt(rng, L), rng.choice([True, True, False])]
+        # a list of sizes may arrive as any iterable of integers: tuple, generator, iterator
+        return op, [fmt, ropt(rng, L), ropt(rng, L), rng.choice([True, True, False]), rng.choice(['list', 'list', 'tuple', 'gen', 'iter'])]
     raise KeyError(op)
 
 
@@ -208,7 +209,10 @@ def do(s, op, a, retained=None):
     if op == 'replace':
         return s.replace(O(a[0]), O(a[1]), a[2], a[3], a[4], a[5])
     if op == 'byteswap':
-        return s.byteswap(a[0], a[1], a[2], a[3])
+        fmt = a[0]
+        if isinstance(fmt, list) and len(a) > 4:
+            fmt = {'list': list, 'tuple': tuple, 'gen': lambda x: (v for v in x), 'iter': iter}[a[4]](fmt)
+        return s.byteswap(fmt, a[1], a[2], a[3])
     raise KeyError(op)
 
 
@@ -253,7 +257,9 @@ def input_class(m, op, a, ma, lsb0=False):
     if uses_self(a):
         parts.append('self-operand')
     if op == 'byteswap':
-        fmt, st, en, rep = ma
+        fmt, st, en, rep = ma[:4]
+        if isinstance(a[0], list) and len(a) > 4 and a[4] in ('gen', 'iter'):
+            parts.append('sizes-from-one-shot-iterable')
         try:
             s, e = M.window(st, en, L)
             sizes = M.byteswap_sizes(fmt, s, e)
